@@ -496,6 +496,11 @@ type litCtx struct {
 	// tail: statements that follow the observed operation and its probes (fresh origin: one more
 	// product of the same construction, probed last)
 	tail []string
+	// tops: top-level declarations (zero origins: singleton type definitions)
+	tops []string
+	// params: when set, the program proper is the body of `fn op(params)` called by main (zerox
+	// origin: singleton extraction parameters)
+	params []string
 }
 
 func strLit(s string) string {
